@@ -46,6 +46,15 @@ class HomogeneousTransform(InvertibleParametricTransform, LinearTransform):
         r"""Get shape of transformation parameters tensor."""
         return Size((self.ndim, self.ndim + 1))
 
+    @torch.no_grad()
+    def reset_parameters(self: HomogeneousTransform) -> None:
+        r"""Reset transformation parameters to the identity mapping."""
+        params = self.params
+        if isinstance(params, Tensor):
+            eye = torch.eye(self.ndim, self.ndim + 1, dtype=params.dtype, device=params.device)
+            params.copy_(eye.expand_as(params))
+        self.clear_buffers()
+
     def matrix_(self: HomogeneousTransform, arg: Tensor) -> HomogeneousTransform:
         r"""Set transformation matrix."""
         if not isinstance(arg, Tensor):
